@@ -4,7 +4,9 @@ proof:          lean/PdshVerif/Props/C03.lean (LTS of dsh()'s dispatcher/worker/
                 any number of spurious wake-ups, both wait constructs, EVERY signalling discipline (Dsh/FanG.lean:
                 wake-up call inside | after the critical section, signal | broadcast): once_only, none_else,
                 exit_after_all, progress (no lost wake-up), rank (termination with finitely many spurious wake-ups);
-                composed with the relay of C05 (Dsh/FanRelay.lean): EndToEnd.returns_after_output_delivered)
+                composed with the relay of C05 (Dsh/FanRelay.lean): EndToEnd.returns_after_output_delivered; with the
+                worker's poll / read loop as code (Dsh/FanPoll.lean): EndToEnd.returns_after_output_delivered_poll;
+                in an environment that runs out of threads / descriptors (Dsh/FanX.lean): X.all_once_or_loud_exit)
 correspondence: the unmodified dsh.c under the controlled scheduler (harness/sched) vs the same LTS,
                 compiled (`pdshmodel fan`): every event enabled, threadcount equal, enabled sets equal
 oracle:         monitors of the harness on observable events only: per-host connect count = 1, no connect for
@@ -34,7 +36,11 @@ MANIFEST = dict(
          "non-spurious step decreases a rank (termination with finitely many spurious wake-ups); composed with the "
          "relay model of C05 (Dsh/FanRelay.lean), dsh() returns only after every polled stream of every target has "
          "been written completely, in order, once, under its label (EndToEnd.returns_after_output_delivered, importing "
-         "C05.relay_lossless_any_interleaving).  The unmodified "
+         "C05.relay_lossless_any_interleaving; returns_after_output_delivered_poll: the same with the worker's loop "
+         "being C05's pollStep and its exit guarded by the code's loop condition only).  Section X (Dsh/FanX.lean: the "
+         "RLIMIT_NOFILE prologue and a failing pthread_create as transitions around FanG.step, which the acceptor runs "
+         "outside relay mode): every target exactly once, or exit status 1 right after the failed create with that "
+         "target not started and dsh() not returned.  The unmodified "
          "dsh.c runs under a controlled scheduler (every pthread/libc call wrapped at link time, spurious wake-ups "
          "injected); each run's event trace must be accepted step by step by the same `step` function, with equal "
          "threadcount and equal enabled sets, and is judged by model-independent monitors.",
@@ -42,7 +48,7 @@ MANIFEST = dict(
     note="Lean 4.33 kernel; axioms propext/Classical.choice/Quot.sound at most; protocol-level model (operations on "
          "threadcount_mutex/threadcount_cond, thread creation, connect/destroy) tied to dsh.c by trace acceptance on "
          "random and exhaustively enumerated schedules; pthread semantics (POSIX mutex/condvar incl. spurious "
-         "wake-ups) are modelled, not verified; real-kernel scheduling, pthread_create failure, workers that never "
+         "wake-ups) are modelled, not verified; real-kernel scheduling, workers that never "
          "return and cancellation by ^C^Z (C20) are outside the model; delivery of output before return is checked "
          "by a monitor only (C05 owns it); harness, gcc, ASan/UBSan trusted")
 
